@@ -149,6 +149,7 @@ func RunParams(self string, sc ParamScenario, base string) Ev {
 	y += "  - name: gate\n    command: test -f " + filepath.Join(dir, "open") + "\n    depends: [first]\n"
 	y += "  - name: after\n    command: " + probe("after") + "\n    depends: [gate]\n"
 	file := filepath.Join(dagsDir, fmt.Sprintf("par%d.yaml", sc.ID))
+	defer removeSockLock(file)
 	os.WriteFile(file, []byte(y), 0o644)
 	clearEnv := func() {
 		for _, k := range append([]string{"1", "2", "3", "OUTV"}, names...) {
@@ -413,6 +414,7 @@ func RunParamsCLI(self, bin string, sc ParamScenario, base string) Ev {
 	y += "  - name: hold\n    command: sh -c \"test $(cat " + filepath.Join(dir, "run") + ") != 1 || { touch " + filepath.Join(dir, "holding") + "; sleep 30; }\"\n    depends: [first]\n"
 	y += "  - name: after\n    command: " + probe("after") + "\n    depends: [hold]\n"
 	file := filepath.Join(dagsDir, fmt.Sprintf("cli%d.yaml", sc.ID))
+	defer removeSockLock(file)
 	os.WriteFile(file, []byte(y), 0o644)
 	for k, v := range map[string]string{"HOME": dir, "BLACKDAGGER_HOME": dir, "BLACKDAGGER_DAGS_DIR": dagsDir, "BLACKDAGGER_DATA_DIR": filepath.Join(dir, "data"),
 		"BLACKDAGGER_LOG_DIR": filepath.Join(dir, "logs"), "BLACKDAGGER_SUSPEND_FLAGS_DIR": filepath.Join(dir, "susp"), "BLACKDAGGER_WORK_DIR": dir} {
